@@ -76,7 +76,8 @@ Others(R) ==
   { Spec1("rev", RevOf(b, <<>>), 0, b.text) : b \in Closed(R) }
   \cup { Spec1("rev", r, 0, RevText(r)) : r \in HeadRevs(R) }
   \* (".." alone is the parent directory for git, not a revision specification: not generated)
-  \cup { Spec2("range", a, b, RevText(a) \o ".." \o RevText(b)) : a \in Operands(R), b \in Operands(R) } \ { Spec2("range", RevOf(BEmpty, <<>>), RevOf(BEmpty, <<>>), "..") }
+  \cup { Spec2("range", p[1], p[2], RevText(p[1]) \o ".." \o RevText(p[2])) :
+           p \in { q \in Operands(R) \X Operands(R) : ~(q[1].base.b = "empty" /\ q[2].base.b = "empty") } }
   \cup { Spec2("merge", a, b, RevText(a) \o "..." \o RevText(b)) : a \in Operands(R), b \in Operands(R) }
 
 \* one state per (repository, base); BEmpty stands for the forms without an enumerated base
@@ -109,7 +110,9 @@ ClassOf(s) == s.form \o "|" \o RevClass(s.a) \o (IF s.form \in {"range", "merge"
 
 Answer(s) == LET res == Resolve(R, s) IN
   [text |-> s.text, form |-> s.form, ok |-> res.ok, kind |-> res.kind, a |-> res.a, b |-> res.b, lines |-> GitLines(R, res), cls |-> ClassOf(s)]
-Emit == done => PrintT(<<"CASE", ToJson([repo |-> R.name,
-                                          specs |-> IF cur = BEmpty THEN { Answer(s) : s \in Others(R) }
-                                                    ELSE { Answer(s) : s \in SpecsOf(R, cur) }])>>)
+\* the token vocabulary (with texts) of the repository, for the driver's random compositions (binding B)
+Tokens == [bases |-> Bases(R), navs |-> Navs1(R), reflogs |-> Reflogs, priors |-> Priors]
+Emit == done => PrintT(<<"CASE", ToJson(IF cur = BEmpty
+                                         THEN [repo |-> R.name, specs |-> { Answer(s) : s \in Others(R) }, tokens |-> Tokens]
+                                         ELSE [repo |-> R.name, specs |-> { Answer(s) : s \in SpecsOf(R, cur) }])>>)
 =============================================================================
